@@ -356,7 +356,7 @@ namespace wq
         }
     }
 
-    static uint64_t count() { return vf::thorough() ? 9000 : 900; }
+    static uint64_t count() { return vf::thorough() ? 18000 : 900; }
     static void run(uint64_t idx)
     {
         vf::cls("wq");
@@ -386,9 +386,11 @@ namespace wq
         me->cur_op = 1;
         while (waiters_left.load(std::memory_order_acquire) > 0)
         {
-            for (int q = 0; q < P.nq; q++)
-                do_unwait(me, q, true, false);
-            usleep(150);
+            // only when the hook counters say somebody is parked (keeps the log short on a loaded machine)
+            if (g_parked_now.load(std::memory_order_relaxed) > 0)
+                for (int q = 0; q < P.nq; q++)
+                    do_unwait(me, q, true, false);
+            usleep(100);
         }
         for (int i = 0; i < P.nwaiters; i++)
             thread_join(i);
